@@ -494,6 +494,18 @@ def _nonsquare0(case):
     return shp[-1] != shp[-2]
 
 
+def _batchrepeat_nonsquare(case):
+    for o in case["operands"]:
+        if o["kind"] != "op":
+            continue
+        for n in R.walk(o["recipe"]):
+            if n["op"] == "BatchRepeat":
+                shp = refmodel.shape(n)
+                if shp[-1] != shp[-2]:
+                    return True
+    return False
+
+
 def _any_batched(case):
     for o in case["operands"]:
         try:
@@ -529,7 +541,7 @@ TRIGGERS = {
     "interp_matmul_operator": lambda c: _first(c) == "matmul" and _heads(c)[0] == "Interpolated",
     "mul_with_identity": lambda c: _first(c) == "mul" and "Identity" in _heads(c),
     # (a BatchRepeat written in the recipe is the same object as the result of a repeat() step)
-    "repeat_step": lambda c: ("repeat" in _kinds(c) and (_nonsquare0(c) or _first(c) in ("matmul", "cat"))) or ("BatchRepeat" in _all_classes(c) and _nonsquare0(c)),
+    "repeat_step": lambda c: ("repeat" in _kinds(c) and (_nonsquare0(c) or _first(c) in ("matmul", "cat"))) or _batchrepeat_nonsquare(c),
     # squeeze() is __getitem__ with an int batch index: it inherits the open C03 __getitem__ defects of these classes
     # (BatchRepeat also arises from an earlier repeat / expand step)
     "squeeze_step": _squeeze_step,
